@@ -1434,6 +1434,8 @@ func (f *BigFloat) LaxEqual(other Value) bool {
 		return f.LaxEqualInt16(other.AsInt16())
 	case INT8_FLAG:
 		return f.LaxEqualInt8(other.AsInt8())
+	case UINT_FLAG:
+		return f.LaxEqualUInt(other.AsUInt())
 	case UINT64_FLAG:
 		return f.LaxEqualUInt64(other.AsInlineUInt64())
 	case UINT32_FLAG:
@@ -1535,6 +1537,14 @@ func (f *BigFloat) LaxEqualInt8(o Int8) bool {
 		return false
 	}
 	oBigFloat := (&BigFloat{}).SetElkInt64(Int64(o))
+	return f.Cmp(oBigFloat) == 0
+}
+
+func (f *BigFloat) LaxEqualUInt(o UInt) bool {
+	if f.IsNaN() {
+		return false
+	}
+	oBigFloat := (&BigFloat{}).SetUInt64(UInt64(o))
 	return f.Cmp(oBigFloat) == 0
 }
 
